@@ -7,8 +7,8 @@
     before publication (`C20_init_sound`).
   * Part B (the regenerated table `Mcp.Gen.rcSharedFields`, decided by the kernel): the statement in full is
     `AllFieldsDisciplined Mcp.Gen.rcSharedFields`.  It is FALSE of today's tree (`C20_full_statement_refuted`):
-    `C20_undisciplined_witness` names exactly the (type, field) pairs without a discipline (defect family D32,
-    each confirmed by the race detector in the harness), `C20_all_fields_disciplined_partial` proves the rest.
+    `C20_undisciplined_witness` names exactly the (type, field) pairs without a discipline (what is left of defect
+    family D32 after the repairs; each confirmed by the race detector in the harness), `C20_all_fields_disciplined_partial` proves the rest.
     `C20_disciplined_no_conflict` ties the per-field predicate to the pairwise one the harness queries.
 
   Partial: lock tracking is lexical and per function (no alias analysis, no inter-procedural propagation), memory
@@ -434,14 +434,7 @@ theorem C20_predicted_only_undisciplined (tab : List Field) (ty fld f1 f2 : Text
 /-- The fields of today's tree without a discipline (defect family D32): literal, compared with the regenerated table
     by `C20_undisciplined_witness`. When a defect is repaired its line goes away here. -/
 def knownUndisciplined : List (Text × Text) :=
-  [(t!"Client", t!"initialized"),
-   (t!"Client", t!"state"),
-   (t!"getSSEConnection", t!"lastEventID"),
-   (t!"lifecycleManager", t!"capabilities"),
-   (t!"session.Session", t!"LastActivity"),
-   (t!"sseClientTransport", t!"endpoint"),
-   (t!"stdioClientTransport", t!"decoder"),
-   (t!"stdioClientTransport", t!"encoder"),
+  [(t!"sseClientTransport", t!"endpoint"),
    (t!"stdioClientTransport", t!"process"),
    (t!"stdioClientTransport", t!"stderr"),
    (t!"stdioClientTransport", t!"stdin"),
@@ -476,6 +469,19 @@ theorem C20_full_statement_refuted : ¬ AllFieldsDisciplined Mcp.Gen.rcSharedFie
   have hall : (Mcp.Gen.rcSharedFields.all disciplined) = true := List.all_eq_true.2 h
   have : (Mcp.Gen.rcSharedFields.all disciplined) = false := by decide +kernel
   rw [this] at hall; cases hall
+
+/-- **Repaired findings stay detectable**: the access records of `Session.LastActivity` and of
+    `lifecycleManager.capabilities` as they were before their repair (literals) are rejected by the predicate, and the
+    pairs the race detector reported on them are exactly pairs the table predicts. -/
+theorem C20_repaired_records_rejected :
+    disciplined d32LastActivity = false ∧ disciplined d32Capabilities = false ∧
+    predicted [d32LastActivity] t!"session.Session" t!"LastActivity"
+      t!"session.Session.GetLastActivity" t!"session.Session.UpdateActivity" = true ∧
+    predicted [d32Capabilities] t!"lifecycleManager" t!"capabilities"
+      t!"lifecycleManager.buildInitializeResponse" t!"lifecycleManager.updateCapabilities" = true ∧
+    predicted [d32LastActivity] t!"session.Session" t!"LastActivity"
+      t!"session.Session.UpdateActivity" t!"session.SessionManager.cleanupExpiredSessions" = false := by
+  decide
 
 /-- The table is not degenerate: it has fields under each of the three disciplines. -/
 theorem C20_table_covers :
